@@ -1,4 +1,5 @@
 import AmiscModel.Index
+import AmiscModel.Interp
 import AmiscModel.Generated.Transforms
 import AmiscModel.Generated.Consts
 import AmiscModel.Generated.Facts
